@@ -81,7 +81,7 @@ def SHARDS(tier):
       if fx == "twoway" and COLS[ci][0] == "A" and COLS[ci][1] != "Name":
         continue
       for src in ALLT:
-        out.append(((fx, ci, src), 40.0 if tier == "quick" else 300.0))
+        out.append(((fx, ci, src), 18.0 if tier == "quick" else 300.0))
   return out
 
 
